@@ -71,7 +71,7 @@ MECH_FUNCS = [
 
 def plan(tier: str, seed: int) -> list[dict]:
     q = tier == "quick"
-    b, t = (50, 420) if q else (420, 2400)
+    b, t = (50, 420) if q else (360, 2400)
     specs: list[dict] = []
 
     def add(name, fn, **kw):
@@ -585,9 +585,17 @@ def shard_merkle(ctx: Ctx) -> None:
         big = sorted({rng.choice([rng.randrange(131, 600), rng.randrange(600, nmax + 1), (1 << rng.randrange(7, 12)) + rng.randrange(-2, 3)])
                       for _ in range(40)})
         sizes = small + [min(b, nmax) for b in big]
-    rng.shuffle(sizes)  # every shape/size class early, whatever the budget
+    rng.shuffle(sizes)
     done = 0
-    for rnd in range(4 if quick else 40):
+    # a first pass every shard makes whatever the budget: one leaf, the smallest odd levels, every shape, the 64-byte case
+    for n in (1, 2, 3, 5, 6, 7, 8, 11, 12):
+        for shape in MERKLE_SHAPES:
+            hs = _gen_list(rng, n, shape)
+            if hs is not None:
+                _check_list(ctx, L, hs, shape, idx_budget=12, full_tamper=1)
+                done += 1
+        _check_tx64(ctx, L, n)
+    for rnd in range(3 if quick else 40):
         for n in sizes:
             if ctx.out_of_time():
                 break
@@ -595,7 +603,7 @@ def shard_merkle(ctx: Ctx) -> None:
                 hs = _gen_list(rng, n, shape)
                 if hs is None:
                     continue
-                _check_list(ctx, L, hs, shape, idx_budget=24 if quick else 40, full_tamper=1 if n > 8 else 2)
+                _check_list(ctx, L, hs, shape, idx_budget=70 if quick else 40, full_tamper=1 if n > 8 else 2)
                 done += 1
             if n >= 1:
                 _check_tx64(ctx, L, n)
@@ -733,18 +741,11 @@ def shard_bits(ctx: Ctx) -> None:
         n += 256 * len(tails)
     ctx.bulk("compact:exhaustive-leading", n)
     ctx.exhaustive.append("compact bits: every (exponent, top significand byte) x significand tails {0000,0001,7fff,ffff}")
-    for _ in range(ctx.params["uniform"]):
-        if ctx.out_of_time():
-            break
-        _check_bits(ctx, P, rng.getrandbits(32))
-        ctx.evaluations += 1
-        ctx.classes["compact:uniform-bits"] += 1
-    ctx._bulk_distinct += ctx.classes["compact:uniform-bits"]
     # 256-bit targets, through bits_from_target first
     k = 0
-    for _ in range(ctx.params["uniform"] // 12):
-        if ctx.out_of_time():
-            break
+    for it in range(ctx.params["uniform"] // 12):
+        if it > 3000 and ctx.time_left() < 0.4 * ctx.params["_budget_s"]:
+            break  # leave the uniform compact values their share
         for t in _target_classes(rng):
             width = 32 if rng.random() < 0.7 else max(1, (t.bit_length() + 7) // 8)
             tb = t.to_bytes(width, "big")
@@ -760,6 +761,13 @@ def shard_bits(ctx: Ctx) -> None:
             _check_round(ctx, P, t, o[1])
             k += 1
     ctx.bulk("compact:targets", k)
+    for _ in range(ctx.params["uniform"]):
+        if ctx.out_of_time():
+            break
+        _check_bits(ctx, P, rng.getrandbits(32))
+        ctx.evaluations += 1
+        ctx.classes["compact:uniform-bits"] += 1
+    ctx._bulk_distinct += ctx.classes["compact:uniform-bits"]
     reach.stop()
     reach.report(ctx)
 
@@ -860,7 +868,10 @@ def shard_retarget(ctx: Ctx) -> None:
                         if got != want2:
                             ctx.violation("next-bits-differs-from-core:true-powlimit",
                                           f"next_bits({b.hex()}, timespan {span}s) = {got:08x}; Core with the {lname} uint256 powLimit gives {want2:08x}", case)
-                ctx.case(f"retarget:{sname}", (nc, first, last, lbits), sample=case)
+                if rnd < 4000:
+                    ctx.case(f"retarget:{sname}", (nc, first, last, lbits), sample=case)
+                else:  # distinct by construction (fresh random times): keep the distinct-set small in the thorough tier
+                    ctx.bulk(f"retarget:{sname}", 1)
                 ctx.classes[f"retarget:bits:{bname}"] += 1
                 if wraps:
                     ctx.classes["retarget:product-wraps"] += 1
